@@ -105,9 +105,9 @@ def repo_units(q):
     out = []
     for r in q.repo:
         if isinstance(r, str):
-            out.append((r, []))
+            out.append((r, [], []))
         else:
-            out.append((r[0], list(r[1])))
+            out.append((r[0], list(r[1]), list(r[2]) if len(r) > 2 else []))
     return out
 
 
@@ -135,13 +135,19 @@ def build_goto(q, wd):
     inc = inc_flags(q)
     bd = base_defs(q)
     n = 0
-    for rel, extra in repo_units(q):
+    for rel, extra, rm in repo_units(q):
         n += 1
         o = os.path.join(wd, 'u%d.gb' % n)
         cmd = ['goto-cc', '-c', os.path.join(REPO, rel), '-o', o] + inc + bd + q.defs + extra
         rc, txt, _ = sh(cmd, timeout=120)
         if rc != 0:
             return None, 'goto-cc failed on %s:\n%s' % (rel, txt[-2000:])
+        for fn in rm:      # the harness supplies a stub for this function of the unit
+            o2 = os.path.join(wd, 'u%d_%s.gb' % (n, fn))
+            rc, txt, _ = sh(['goto-instrument', '--remove-function-body', fn, o, o2], timeout=120)
+            if rc != 0:
+                return None, 'remove-function-body %s failed:\n%s' % (fn, txt[-2000:])
+            o = o2
         objs.append(o)
     o = os.path.join(wd, 'h.gb')
     cmd = ['goto-cc', '-c', os.path.join(VERIF, 'harness', q.harness), '-o', o] + inc + bd + q.defs
@@ -202,7 +208,7 @@ def parse_trace_inputs(trace):
         if s.get('stepType') != 'assignment' or s.get('hidden'):
             continue
         lhs = s.get('lhs', '')
-        m = re.match(r'^return_value_nondet_([a-z_]+?)(\$\d+)?$', lhs)
+        m = re.match(r'^vf_draw_([a-z_]+)$', lhs)
         if not m:
             continue
         v = s.get('value', {})
@@ -335,13 +341,17 @@ def build_native(q, wd, sanitize=True):
     san = ['-fsanitize=address,undefined', '-fno-sanitize-recover=undefined'] if sanitize else []
     objs = []
     n = 0
-    for rel, extra in repo_units(q):
+    for rel, extra, rm in repo_units(q):
         n += 1
         o = os.path.join(wd, 'n%d.o' % n)
-        cmd = ['gcc', '-O0', '-g', '-w', '-c', os.path.join(REPO, rel), '-o', o] + san + inc + bd + q.defs + extra
+        cmd = ['gcc', '-O0', '-g', '-w', '-fPIC', '-c', os.path.join(REPO, rel), '-o', o] + san + inc + bd + q.defs + extra
         rc, txt, _ = sh(cmd, timeout=120)
         if rc != 0:
             return None, txt[-2000:]
+        for fn in rm:
+            rc, txt, _ = sh(['objcopy', '--weaken-symbol=' + fn, o], timeout=60)
+            if rc != 0:
+                return None, txt[-2000:]
         objs.append(o)
     o = os.path.join(wd, 'nh.o')
     cmd = ['gcc', '-O0', '-g', '-w', '-DVF_NATIVE', '-c', os.path.join(VERIF, 'harness', q.harness), '-o', o] + san + inc + bd + q.defs
